@@ -161,6 +161,19 @@ fn test_span_history(h: &SpanHistory, cx: &mut Cx) -> CaseResult {
         let spec = SpanSpec { neg: m.sign < 0, u: m.mag };
         let rebuilt = spec.to_span();
         ensure!(s.fieldwise() == rebuilt.fieldwise(), "span-fieldwise", "{ctx}: fieldwise view differs from a span rebuilt from the same units: {s:?} vs {rebuilt:?}");
+        {
+            // (Eq/Hash agreement of the fieldwise view is not part of C12's statement and is not
+            // judged: with debug assertions jiff's ranged integers hash their tracked bounds too,
+            // so equal values built in different ways can hash differently - see DESIGN.md 10.6)
+            // ... and unit by unit the other way round: a span that differs in exactly one unit
+            // is a different fieldwise value (every unit in turn)
+            for i in 0..10 {
+                let mut other = spec.clone();
+                other.u[i] = if other.u[i] < SPAN_LIMITS[i] { other.u[i] + 1 } else { other.u[i] - 1 };
+                let o = other.to_span();
+                ensure!(s.fieldwise() != o.fieldwise() && o.fieldwise() != s.fieldwise() && s.fieldwise() != o && o != s.fieldwise(), "span-fieldwise-ignores-a-unit", "{ctx}: {s:?} and {o:?} differ in unit {i} but compare equal fieldwise");
+            }
+        }
     }
     cx.class_if(refused > 0, "refusal");
     cx.class_if(limit_vals > 0, "limit-value");
